@@ -1276,21 +1276,33 @@ CONTRACTS[ST + 'stabilizer_state#list'] = dict(
 )
 
 # ------------------------------------------------------------------ C12 / C05: the random computational-basis state
+_rbI = '(2 * a + 1 if a < N else 2 * (a - N))'
+_rb_tab = 'forall(a, 0, 2 * N, forall(c, 0, 2 * N, result[0][a][c] == b2i(c == %s)))' % _rbI
 CONTRACTS[ST + 'random_bit_state_gs_ps'] = dict(
     params=[('N', 'int')], requires=['N >= 0'],
     ensures=['rows(result[0]) == 2 * N', 'cols(result[0]) == 2 * N', 'len(result[1]) == 2 * N',
+             # row a is the unit string at position 2a+1 (Z_a) for a < N and at 2(a-N) (X_{a-N}) for a >= N
+             _rb_tab,
              'forall(i, 0, N, forall(c, 0, 2 * N, result[0][i][c] == b2i(c == 2 * i + 1) and result[0][N + i][c] == b2i(c == 2 * i)))',
-             'forall(k, 0, 2 * N, result[1][k] == 0 or result[1][k] == 2)'],
+             'forall(k, 0, 2 * N, result[1][k] == 0 or result[1][k] == 2)',
+             # ... which is a valid tableau (the argument of identity_map, with the rows in tableau order)
+             'bits2(result[0])', 'gram(result[0], N)'],
     modifies=[], returns=('int2 fresh', 'int1 fresh'),
+    hints={'return': [
+        ('assert_from', 'gram(result[0], N)',
+         ['N >= 0', _rb_tab,
+          ('forall_lemma', [('a', '0', '2 * N'), ('b', '0', '2 * N')], 'acqsum_ext', ['result[0][b]', 'Unit(2 * b + 1 if b < N else 2 * (b - N), 2 * N)', 'result[0][a]', 'N']),
+          ('forall_lemma', [('a', '0', '2 * N'), ('b', '0', '2 * N')], 'acq_unit', ['result[0][a]', '2 * b + 1 if b < N else 2 * (b - N)', '2 * N', 'N'])]),
+    ]},
     loops={0: dict(var='i', invariant=['rows(gs) == 2 * N', 'cols(gs) == 2 * N',
-                                       'forall(a, 0, i, forall(c, 0, 2 * N, gs[a][c] == b2i(c == 2 * a + 1) and gs[N + a][c] == b2i(c == 2 * a)))',
-                                       'forall(a, i, N, forall(c, 0, 2 * N, gs[a][c] == 0 and gs[N + a][c] == 0))'])},
+                                       'forall(a, 0, 2 * N, forall(c, 0, 2 * N, gs[a][c] == (b2i(c == %s) if (a < i or (N <= a and a < N + i)) else 0)))' % _rbI])},
 )
 CONTRACTS[ST + 'random_bit_state'] = dict(
     params=[('N', 'int')], requires=['N >= 0'],
     # a computational-basis state: stabilizers +-Z_i, destabilizers X_i, pure
     ensures=['rows(result.gs) == 2 * N', 'cols(result.gs) == 2 * N', 'len(result.ps) == 2 * N', 'result.r == 0',
              'forall(i, 0, N, forall(c, 0, 2 * N, result.gs[i][c] == b2i(c == 2 * i + 1) and result.gs[N + i][c] == b2i(c == 2 * i)))',
-             'forall(k, 0, 2 * N, result.ps[k] == 0 or result.ps[k] == 2)'],
+             'forall(k, 0, 2 * N, result.ps[k] == 0 or result.ps[k] == 2)',
+             'inv_state(result.gs, result.ps, result.r, N)'],
     modifies=[], returns=STATE,
 )
